@@ -471,8 +471,8 @@ class Check:
         ">=2 that is probed again after a later class was created; distinct by case hash."
     )
     assumptions = [
-        "not asserted (undocumented): several bases carrying overloads without extend_super in the subclass, a single "
-        "undecorated definition, extend_super on a non-first definition, identical signatures from two bases",
+        "not asserted (undocumented): several bases carrying overloads under a subclass with own definitions and no "
+        "extend_super, a single undecorated definition, identical signatures from two bases",
     ]
 
     def tasks(self, tier, seed):
